@@ -1,7 +1,8 @@
 /* correspondence harness for C05 (in-process, byte level): the real h2.c on one HTTP/2
  * connection whose client byte stream arrives in EXACTLY the read segments the line gives.
  *
- * line:  h2s <seg> <seg> ... q <seg> ... q          (seg = hex octets, "q" ends a step)
+ * line:  h2b <table> <seg> <seg> ... q <seg> ... q  (seg = hex octets, "q" ends a step; <table> is
+ *        the header-block look-up of the Lean model and is ignored here: lighttpd decodes HPACK)
  *
  *   Before the line's first segment the connection is set up as the e2e client of c05.py
  *   leaves it: h2_init_con() with the client preface, an empty client SETTINGS and the
@@ -56,6 +57,7 @@ static size_t g_bodycap;
 static struct lshpack_dec g_peer;  /* the client's HPACK decoder (for :status) */
 static int g_peer_ready;
 static int g_undelivered;
+static int g_body_corrupt;         /* a request body octet that is not a DATA payload octet ('d') */
 static buffer *blk; static uint32_t blk_sid; static int blk_es, blk_open;
 
 static void on_alarm(int sig) {
@@ -108,6 +110,14 @@ static int hw_capture(request_st *r, connection *con) {
 /* the http_response_loop argument of h2_process_streams() */
 static handler_t producer(request_st *r) {
     size_t body = ERRBODY;
+    /* what h2_recv_data() put into the request body so far: the generator's DATA octets are all
+     * 'd' (Pad Length octets, padding and frame headers are not) */
+    for (const chunk *c = r->reqbody_queue.first; c; c = c->next) {
+        if (c->type != MEM_CHUNK) continue;
+        const char *p = c->mem->ptr + c->offset;
+        for (size_t i = 0, n = buffer_clen(c->mem) - (size_t)c->offset; i < n; ++i)
+            if (p[i] != 'd') g_body_corrupt = 1;
+    }
     if (0 == r->http_status) {
         int status = 500; unsigned long bl = 0;
         const char *t = r->target.ptr;
@@ -197,6 +207,7 @@ static void con_begin(void) {
     lshpack_dec_init(&g_peer);
     g_peer_ready = 1;
     g_undelivered = 0;
+    g_body_corrupt = 0;
     blk_open = 0;
 }
 
@@ -347,10 +358,10 @@ int main(void) {
     signal(SIGALRM, on_alarm);
     while (ltv_next()) {
         alarm(60);
-        if (ltv_ntok < 1 || 0 != strcmp(ltv_tok[0], "h2s")) { puts("bad-op"); continue; }
+        if (ltv_ntok < 2 || 0 != strcmp(ltv_tok[0], "h2b")) { puts("bad-op"); continue; }
         con_begin();
         int first = 1;
-        for (int k = 1; k < ltv_ntok; ) {
+        for (int k = 2; k < ltv_ntok; ) {
             /* one step: tokens up to the next "q" */
             int e = k;
             while (e < ltv_ntok && 0 != strcmp(ltv_tok[e], "q")) ++e;
@@ -366,6 +377,7 @@ int main(void) {
             k = e + 1;
         }
         if (g_undelivered) fputs(" UNDELIVERED", stdout);
+        if (g_body_corrupt) fputs(" BODY-CORRUPT", stdout);
         fputs(g_con.hx ? " | open" : " | fin", stdout);
         fputc('\n', stdout);
         con_end();
